@@ -319,18 +319,19 @@ impl super::MainState {
                     let user_state = &mut conn_state.user_state;
                     user_state.registered = registered;
                     let mut state = self.state.write().await;
-                    let user = User::new(
-                        &self.config,
-                        user_state,
-                        conn_state.sender.take().unwrap(),
-                        conn_state.quit_sender.take().unwrap(),
-                    );
-                    let umode_str = user.modes.to_string();
                     if !state.users.contains_key(&user_nick) {
+                        let user = User::new(
+                            &self.config,
+                            user_state,
+                            conn_state.sender.take().unwrap(),
+                            conn_state.quit_sender.take().unwrap(),
+                        );
+                        let umode_str = user.modes.to_string();
                         state.add_user(&user_nick, user);
                         umode_str
                     } else {
-                        // if nick already used
+                        // if nick already used - registration is not completed.
+                        user_state.authenticated = false;
                         let client = conn_state.user_state.client_name();
                         self.feed_msg(
                             &mut conn_state.stream,
